@@ -632,7 +632,7 @@ func probeSender(c *vt.C, tk, what string, sendErr error, wantPerm bool, throttl
 			slack = 250 * time.Millisecond
 		}
 		n, res := E.probe.attempts(sendErr, time.Now().Add(throttle-slack))
-		if n != 1 || res == nil {
+		if n > 1 || res == nil { // (0 attempts: the deadline had passed before the first one; still no early retry)
 			return vt.Failf("sender/"+tk+"/throttle-not-honoured", "%s: requested delay %v, but a retrying sender made %d attempts before the delay had passed: %v", what, throttle, n, sendErr)
 		}
 		c.Class("probe:throttle-honoured")
@@ -649,5 +649,5 @@ func probeSender(c *vt.C, tk, what string, sendErr error, wantPerm bool, throttl
 
 func TestHop(t *testing.T) {
 	E = newEnv(t)
-	vt.Run(t, cHop, vt.N(6000, 150000), genHop, runHop)
+	vt.Run(t, cHop, vt.N(10000, 600000), genHop, runHop)
 }
